@@ -221,7 +221,7 @@ Proof.
         -- constructor; [apply fpos_cons; [lia|exact Hpf1] | exact Hpf2].
         -- apply Hlog. unfold vw. rewrite Ec. reflexivity.
   - (* Use *)
-    cbn [vm_step sp_step]. destruct gf.
+    destruct gf; cbn [vm_step sp_step cur glob log next sframes sglobal snext].
     + (* global map: R does not constrain it *)
       destruct (afind n gl) as [v|]; [destruct (vassigned v && ctx)|]; cbn [fst snd out_ok];
         (split; [constructor; cbn [next cur glob log sframes sglobal snext]; auto | exact I]).
@@ -238,7 +238,7 @@ Proof.
       * cbn [fst snd]. split; [constructor; cbn [next cur glob log sframes sglobal snext]; auto|].
         rewrite <- Hvn. cbn [oid]. destruct ctx; [left|]; reflexivity.
   - (* Find *)
-    cbn [vm_step sp_step]. destruct gf.
+    destruct gf; cbn [vm_step sp_step cur glob log next sframes sglobal snext].
     + destruct (afind n gl); cbn [fst snd out_ok]; (split; [constructor; auto | exact I]).
     + specialize (Hv n) as Hvn. unfold vw in Hvn. cbn [sframes sglobal].
       destruct (afind n c) as [v|] eqn:Ec; cbn [option_map] in Hvn; cbn [fst snd out_ok];
@@ -246,3 +246,337 @@ Proof.
   - (* Fresh *)
     cbn. split; [|reflexivity]. constructor; cbn [next cur glob log sframes sglobal snext]; auto.
 Qed.
+
+(* ------------------------------------------------------------------ runs *)
+Lemma run_R ops : forall s t,
+  R s t -> all_steps redecl_free_step t ops = true ->
+  R (fst (vm_run s ops)) (fst (sp_run t ops)) /\
+  outs_ok out_ok ops (snd (vm_run s ops)) (snd (sp_run t ops)).
+Proof.
+  induction ops as [|o r IH]; intros s t HR Hwf; cbn [vm_run sp_run all_steps] in *.
+  - cbn. auto.
+  - apply andb_true_iff in Hwf. destruct Hwf as [H1 H2].
+    destruct (step_R s t o HR H1) as [HR' Ho].
+    destruct (vm_step s o) as [s1 a] eqn:Ev. destruct (sp_step t o) as [t1 b] eqn:Es.
+    cbn [fst snd] in *.
+    specialize (IH s1 t1 HR' H2).
+    destruct (vm_run s1 r) as [s2 l]. destruct (sp_run t1 r) as [t2 l'].
+    cbn [fst snd outs_ok] in *. tauto.
+Qed.
+
+Theorem vm_refines_scopes ops :
+  redecl_free ops = true -> outs_ok out_ok ops (run_vm ops) (run_sp ops).
+Proof. intros H. exact (proj2 (run_R ops vm0 sp0 R0 H)). Qed.
+
+(* the undo log is order-sensitive exactly when a name is declared twice inside one frame *)
+Definition redecl_witness : list op := [Enter; Add [120] false; Add [120] false; Leave; Use [120] false false].
+
+Lemma vm_same_scope_redecl_refuted :
+  exists ops, redecl_free ops = false /\ ~ outs_ok out_ok ops (run_vm ops) (run_sp ops).
+Proof.
+  exists redecl_witness. split; [reflexivity|].
+  vm_compute. intros (_ & _ & _ & _ & H & _). discriminate.
+Qed.
+
+(* ------------------------------------------------------------------ the global map *)
+Definition RG (s : vm) (t : sp) : Prop := forall k i, ffind k (sglobal t) = Some i -> vw (glob s) k = Some i.
+
+Lemma step_RG s t o :
+  R s t -> RG s t -> redecl_free_step t o = true -> glob_flag_step t o = true ->
+  RG (fst (vm_step s o)) (fst (sp_step t o)) /\ out_ok_glob o (snd (vm_step s o)) (snd (sp_step t o)).
+Proof.
+  intros HR HG Hwf Hgf. destruct HR as [Hn Hv Hpf Hpg Hl].
+  destruct s as [c gl lg nx]; destruct t as [fs g sn]; unfold RG in *;
+    cbn [next cur glob log sframes sglobal snext] in *.
+  destruct o as [| |n gf|n gf ctx|n gf|].
+  - cbn. auto.
+  - destruct lg; destruct fs; cbn [LR] in Hl; try contradiction; cbn; auto.
+  - destruct lg as [|l lr]; destruct fs as [|f fr]; cbn [LR] in Hl; try contradiction.
+    + cbn [glob_flag_step sframes] in Hgf. subst gf.
+      cbn [vm_step sp_step log sframes next snext fst snd cur glob sglobal]. split; [|exact I].
+      intros k i. rewrite vw_aset. cbn [ffind].
+      destruct (str_eqb k n); [|apply HG].
+      intros H. injection H as <-. rewrite Hn. destruct (afind n c); reflexivity.
+    + cbn [vm_step sp_step log sframes next snext cur glob sglobal].
+      destruct (afind n c) as [old|] eqn:Ec; cbn [fst snd glob sglobal]; (split; [|exact I]); [exact HG|].
+      destruct gf; [|exact HG].
+      intros k i Hk. rewrite vw_aset. destruct (str_eqb k n) eqn:E; [|exact (HG _ _ Hk)].
+      apply str_eqb_eq in E. subst k. exfalso.
+      specialize (Hv n). unfold vw in Hv. rewrite Ec in Hv. cbn [option_map] in Hv.
+      symmetry in Hv. apply slookup_none_global in Hv. congruence.
+  - destruct gf; cbn [vm_step sp_step cur glob log next sframes sglobal snext].
+    + pose proof (HG n) as Hgn. unfold vw in Hgn.
+      destruct (afind n gl) as [v|] eqn:Eg; cbn [option_map] in Hgn.
+      * destruct (vassigned v && ctx) eqn:Ea; cbn [fst snd glob sglobal].
+        -- split; [exact HG|]. apply andb_true_iff in Ea. destruct Ea as [_ ->].
+           cbn [out_ok_glob]. intros _. right; reflexivity.
+        -- split.
+           ++ intros k i Hk. rewrite vw_aset. cbn [vid]. destruct (str_eqb k n) eqn:E; [|exact (HG _ _ Hk)].
+              apply str_eqb_eq in E. subst k. unfold vw in HG. specialize (HG _ _ Hk). rewrite Eg in HG. exact HG.
+           ++ destruct (ffind n g) as [i|] eqn:Ef; cbn [oid].
+              ** specialize (Hgn _ eq_refl). injection Hgn as ->.
+                 destruct ctx; cbn [out_ok_glob]; intros _; [left|]; reflexivity.
+              ** destruct ctx; cbn [out_ok_glob]; intros H; congruence.
+      * cbn [fst snd]. split; [exact HG|].
+        destruct (ffind n g) as [i|] eqn:Ef; [specialize (Hgn _ eq_refl); discriminate|].
+        cbn [oid]. destruct ctx; cbn [out_ok_glob]; intros H; congruence.
+    + destruct (afind n c) as [v|]; [destruct (vassigned v && ctx)|]; cbn [fst snd glob sglobal out_ok_glob]; auto.
+  - destruct gf; cbn [vm_step sp_step cur glob log next sframes sglobal snext].
+    + pose proof (HG n) as Hgn. unfold vw in Hgn.
+      destruct (afind n gl) as [v|] eqn:Eg; cbn [option_map] in Hgn; cbn [fst snd]; (split; [exact HG|]);
+        cbn [out_ok_glob]; (destruct (ffind n g) as [i|] eqn:Ef; cbn [oid]; [|congruence]); specialize (Hgn _ eq_refl).
+      * injection Hgn as ->. reflexivity.
+      * discriminate.
+    + destruct (afind n c); cbn [fst snd out_ok_glob]; auto.
+  - cbn. auto.
+Qed.
+
+Lemma run_RG ops : forall s t,
+  R s t -> RG s t -> all_steps redecl_free_step t ops = true -> all_steps glob_flag_step t ops = true ->
+  outs_ok out_ok_glob ops (snd (vm_run s ops)) (snd (sp_run t ops)).
+Proof.
+  induction ops as [|o r IH]; intros s t HR HG Hwf Hgf; cbn [vm_run sp_run all_steps] in *.
+  - cbn. auto.
+  - apply andb_true_iff in Hwf. destruct Hwf as [H1 H2].
+    apply andb_true_iff in Hgf. destruct Hgf as [G1 G2].
+    destruct (step_R s t o HR H1) as [HR' _].
+    destruct (step_RG s t o HR HG H1 G1) as [HG' Ho].
+    destruct (vm_step s o) as [s1 a] eqn:Ev. destruct (sp_step t o) as [t1 b] eqn:Es.
+    cbn [fst snd] in *.
+    specialize (IH s1 t1 HR' HG' H2 G2).
+    destruct (vm_run s1 r) as [s2 l]. destruct (sp_run t1 r) as [t2 l'].
+    cbn [fst snd outs_ok] in *. tauto.
+Qed.
+
+Theorem vm_global_lookup ops :
+  redecl_free ops = true -> glob_flag_ok ops = true -> outs_ok out_ok_glob ops (run_vm ops) (run_sp ops).
+Proof.
+  intros H1 H2. apply (run_RG ops vm0 sp0 R0); auto.
+  intros k i H; discriminate.
+Qed.
+
+(* a parameter of a top-level function is flagged globalNamespace by the caller (scopeStack.size() <= 1
+   while a VariableMap scope is open); `::q` then finds it although no global q exists *)
+Definition glob_witness : list op := [Enter; Add [113] true; Leave; Find [113] true].
+
+Lemma vm_global_pollution_refuted :
+  exists ops, redecl_free ops = true /\ run_sp ops <> run_vm ops /\
+              nth 3 (run_sp ops) 9 = 0 /\ nth 3 (run_vm ops) 9 = 1.
+Proof. exists glob_witness. vm_compute. repeat split; congruence. Qed.
+
+(* ------------------------------------------------------------------ fresh ids are fresh *)
+Lemma vm_step_next s o : next s <= next (fst (vm_step s o)).
+Proof.
+  destruct s as [c gl lg nx]. destruct o as [| |n gf|n gf ctx|n gf|]; cbn [vm_step next log cur glob].
+  - cbn; lia.
+  - destruct lg; cbn; lia.
+  - destruct lg; [|destruct (afind n c)]; cbn; lia.
+  - destruct (afind n (if gf then gl else c)) as [v|]; [destruct (vassigned v && ctx); [|destruct gf]|]; cbn; lia.
+  - destruct (afind n (if gf then gl else c)); cbn; lia.
+  - cbn; lia.
+Qed.
+
+Lemma vm_step_new s o :
+  match o with
+  | Add _ _ | Fresh => snd (vm_step s o) = next s + 1 /\ next (fst (vm_step s o)) = next s + 1
+  | _ => True
+  end.
+Proof.
+  destruct s as [c gl lg nx]. destruct o as [| |n gf|n gf ctx|n gf|]; cbn [vm_step next log cur glob]; auto.
+  destruct lg; [|destruct (afind n c)]; cbn; auto.
+Qed.
+
+Lemma run_new_ids ops : forall s,
+  StronglySorted N.lt (new_ids ops (snd (vm_run s ops))) /\
+  Forall (fun i => next s < i) (new_ids ops (snd (vm_run s ops))).
+Proof.
+  induction ops as [|o r IH]; intros s; cbn [vm_run new_ids].
+  - cbn. split; constructor.
+  - pose proof (vm_step_next s o) as Hle. pose proof (vm_step_new s o) as Hnew.
+    destruct (vm_step s o) as [s1 a] eqn:Ev. cbn [fst snd] in *.
+    destruct (IH s1) as [IH1 IH2].
+    destruct (vm_run s1 r) as [s2 l]. cbn [fst snd] in *.
+    assert (Hmono : Forall (fun i => next s < i) (new_ids r l)).
+    { eapply Forall_impl; [|exact IH2]. cbn. intros; lia. }
+    destruct o; cbn [new_ids]; auto.
+    + destruct Hnew as [-> Hn1]. split.
+      * constructor; [exact IH1|]. eapply Forall_impl; [|exact IH2]. cbn. intros; lia.
+      * constructor; [lia | exact Hmono].
+    + destruct Hnew as [-> Hn1]. split.
+      * constructor; [exact IH1|]. eapply Forall_impl; [|exact IH2]. cbn. intros; lia.
+      * constructor; [lia | exact Hmono].
+Qed.
+
+Lemma sorted_lt_nodup l : StronglySorted N.lt l -> NoDup l.
+Proof.
+  induction 1 as [|a l HS IH HF]; constructor; auto.
+  intros Hin. rewrite Forall_forall in HF. specialize (HF _ Hin). lia.
+Qed.
+
+Theorem vm_ids_distinct ops :
+  StronglySorted N.lt (new_ids ops (run_vm ops)) /\ NoDup (new_ids ops (run_vm ops)) /\
+  Forall (fun i => i <> 0) (new_ids ops (run_vm ops)).
+Proof.
+  destruct (run_new_ids ops vm0) as [H1 H2]. unfold run_vm. repeat split; auto.
+  - apply sorted_lt_nodup; exact H1.
+  - eapply Forall_impl; [|exact H2]. cbn. intros; lia.
+Qed.
+
+(* ------------------------------------------------------------------ Leave restores the outer bindings *)
+Lemma vm_run_app a : forall b s,
+  vm_run s (a ++ b) = let '(s1, l1) := vm_run s a in let '(s2, l2) := vm_run s1 b in (s2, l1 ++ l2).
+Proof.
+  induction a as [|o a IH]; intros b s; cbn [app vm_run].
+  - destruct (vm_run s b); reflexivity.
+  - destruct (vm_step s o) as [s1 x]. rewrite IH.
+    destruct (vm_run s1 a) as [s2 l1]. destruct (vm_run s2 b) as [s3 l2]. reflexivity.
+Qed.
+
+Lemma sp_run_app a : forall b s,
+  sp_run s (a ++ b) = let '(s1, l1) := sp_run s a in let '(s2, l2) := sp_run s1 b in (s2, l1 ++ l2).
+Proof.
+  induction a as [|o a IH]; intros b s; cbn [app sp_run].
+  - destruct (sp_run s b); reflexivity.
+  - destruct (sp_step s o) as [s1 x]. rewrite IH.
+    destruct (sp_run s1 a) as [s2 l1]. destruct (sp_run s2 b) as [s3 l2]. reflexivity.
+Qed.
+
+Lemma all_steps_app p a : forall b s,
+  all_steps p s (a ++ b) = all_steps p s a && all_steps p (fst (sp_run s a)) b.
+Proof.
+  induction a as [|o a IH]; intros b s; cbn [app all_steps sp_run].
+  - reflexivity.
+  - rewrite IH. destruct (sp_step s o) as [s1 x]. cbn [fst].
+    destruct (sp_run s1 a) as [s2 l]. cbn [fst]. rewrite andb_assoc. reflexivity.
+Qed.
+
+Lemma sp_bal body : forall d top rest g n,
+  length top = S d -> bal d body = true ->
+  exists f', sframes (fst (sp_run (mkSp (top ++ rest) g n) body)) = f' :: rest /\
+             sglobal (fst (sp_run (mkSp (top ++ rest) g n) body)) = g.
+Proof.
+  induction body as [|o r IH]; intros d top rest g n Hlen Hb; cbn [bal sp_run] in *.
+  - destruct d; [|discriminate]. destruct top as [|f [|? ?]]; try discriminate. exists f. cbn. auto.
+  - destruct top as [|f top']; [discriminate|]. cbn [length] in Hlen. injection Hlen as Hlen.
+    destruct o as [| |m gf|m gf ctx|m gf|]; cbn [sp_step sframes sglobal snext app].
+    + specialize (IH (S d) ([] :: f :: top') rest g n).
+      cbn [app length] in IH. destruct (sp_run _ r) as [t2 l] eqn:E. cbn [fst] in *.
+      apply IH; [congruence | exact Hb].
+    + destruct d as [|d']; [discriminate|].
+      specialize (IH d' top' rest g n Hlen Hb).
+      destruct (sp_run _ r) as [t2 l] eqn:E. cbn [fst] in *. exact IH.
+    + specialize (IH d (((m, n + 1) :: f) :: top') rest g (n + 1)).
+      cbn [app length] in IH. destruct (sp_run _ r) as [t2 l] eqn:E. cbn [fst] in *.
+      apply IH; [congruence | exact Hb].
+    + specialize (IH d (f :: top') rest g n). cbn [app length] in IH.
+      destruct (sp_run _ r) as [t2 l] eqn:E. cbn [fst] in *. apply IH; [congruence | exact Hb].
+    + specialize (IH d (f :: top') rest g n). cbn [app length] in IH.
+      destruct (sp_run _ r) as [t2 l] eqn:E. cbn [fst] in *. apply IH; [congruence | exact Hb].
+    + specialize (IH d (f :: top') rest g (n + 1)). cbn [app length] in IH.
+      destruct (sp_run _ r) as [t2 l] eqn:E. cbn [fst] in *. apply IH; [congruence | exact Hb].
+Qed.
+
+Lemma vm_view_vw s k : vm_view s k = oid (vw (cur s) k).
+Proof. unfold vm_view, vw. destruct (afind k (cur s)); reflexivity. Qed.
+
+Theorem vm_leave_restores pre body :
+  redecl_free (pre ++ Enter :: body ++ [Leave]) = true -> bal 0 body = true ->
+  forall k, vm_view (fst (vm_run vm0 (pre ++ Enter :: body ++ [Leave]))) k = vm_view (fst (vm_run vm0 pre)) k.
+Proof.
+  intros Hwf Hb k. unfold redecl_free in Hwf.
+  pose proof (run_R _ vm0 sp0 R0 Hwf) as [HR3 _].
+  rewrite all_steps_app in Hwf. apply andb_true_iff in Hwf. destruct Hwf as [Hwf1 _].
+  pose proof (run_R _ vm0 sp0 R0 Hwf1) as [HR1 _].
+  rewrite !vm_view_vw. rewrite (R_view _ _ HR3), (R_view _ _ HR1). f_equal.
+  rewrite sp_run_app. destruct (sp_run sp0 pre) as [t1 l1]. cbn [fst].
+  change (Enter :: body ++ [Leave]) with ([Enter] ++ body ++ [Leave]).
+  rewrite sp_run_app. cbn [sp_run sp_step]. rewrite sp_run_app.
+  destruct t1 as [fs g n]. cbn [sframes sglobal snext].
+  destruct (sp_bal body 0 [[]] fs g n eq_refl Hb) as (f' & Hf & Hg).
+  cbn [app] in Hf, Hg.
+  destruct (sp_run {| sframes := [] :: fs; sglobal := g; snext := n |} body) as [t2 l2] eqn:E2.
+  change (sframes (fst (sp_run {| sframes := [] :: fs; sglobal := g; snext := n |} body)) = f' :: fs) in Hf.
+  change (sglobal (fst (sp_run {| sframes := [] :: fs; sglobal := g; snext := n |} body)) = g) in Hg.
+  rewrite E2 in Hf, Hg. cbn [fst] in *.
+  destruct t2 as [fs2 g2 n2]. cbn [sframes sglobal] in *. subst fs2 g2.
+  cbn [sp_run sp_step sframes sglobal snext fst]. reflexivity.
+Qed.
+
+(* ------------------------------------------------------------------ identity is independent of spelling *)
+Section Rename.
+  Variable rho : str -> str.
+  Hypothesis rho_inj : forall a b, rho a = rho b -> a = b.
+
+  Definition ren_amap (m : amap) : amap := map (fun e => (rho (fst e), snd e)) m.
+  Definition ren_vm (s : vm) : vm := mkVm (ren_amap (cur s)) (ren_amap (glob s)) (map ren_amap (log s)) (next s).
+
+  Lemma rho_eqb a b : str_eqb (rho a) (rho b) = str_eqb a b.
+  Proof.
+    destruct (str_eqb a b) eqn:E.
+    - apply str_eqb_eq in E. subst. apply str_eqb_refl.
+    - apply str_eqb_neq. apply str_eqb_neq in E. intros H. apply E. exact (rho_inj _ _ H).
+  Qed.
+
+  Lemma afind_ren k m : afind (rho k) (ren_amap m) = afind k m.
+  Proof.
+    induction m as [|[k0 v0] m IH]; cbn [ren_amap map afind fst snd]; [reflexivity|].
+    rewrite rho_eqb. destruct (str_eqb k k0); [reflexivity | exact IH].
+  Qed.
+
+  Lemma aerase_ren k m : aerase (rho k) (ren_amap m) = ren_amap (aerase k m).
+  Proof.
+    induction m as [|[k0 v0] m IH]; cbn [ren_amap map aerase fst snd]; [reflexivity|].
+    rewrite rho_eqb. destruct (str_eqb k k0); [exact IH|].
+    cbn [map fst snd]. f_equal. exact IH.
+  Qed.
+
+  Lemma aset_ren k v m : aset (rho k) v (ren_amap m) = ren_amap (aset k v m).
+  Proof. unfold aset. rewrite aerase_ren. reflexivity. Qed.
+
+  Lemma restore_ren l : forall m, fold_left restore (ren_amap l) (ren_amap m) = ren_amap (fold_left restore l m).
+  Proof.
+    induction l as [|[k0 v0] l IH]; intros m; cbn [ren_amap map fold_left fst snd]; [reflexivity|].
+    fold (ren_amap l). unfold restore at 2 4. cbn [fst snd].
+    destruct (vid v0 =? 0); [rewrite aerase_ren | rewrite aset_ren]; apply IH.
+  Qed.
+
+  Lemma ren_amap_snoc l k v : ren_amap (l ++ [(k, v)]) = ren_amap l ++ [(rho k, v)].
+  Proof. unfold ren_amap. rewrite map_app. reflexivity. Qed.
+
+  Lemma step_ren s o : vm_step (ren_vm s) (rename_op rho o) = (ren_vm (fst (vm_step s o)), snd (vm_step s o)).
+  Proof.
+    destruct s as [c gl lg nx].
+    destruct o as [| |n gf|n gf ctx|n gf|]; unfold ren_vm; cbn [rename_op vm_step cur glob log next map].
+    - reflexivity.
+    - destruct lg as [|l lr]; cbn [map fst snd cur glob log next]; [reflexivity|].
+      rewrite restore_ren. reflexivity.
+    - rewrite afind_ren. destruct lg as [|l lr]; cbn [map].
+      + destruct (afind n c); cbn [fst snd cur glob log next map]; rewrite aset_ren;
+          destruct gf; try rewrite aset_ren; reflexivity.
+      + destruct (afind n c); cbn [fst snd cur glob log next map]; rewrite aset_ren;
+          rewrite ren_amap_snoc;
+          destruct gf; try rewrite aset_ren; reflexivity.
+    - destruct gf; rewrite afind_ren.
+      + destruct (afind n gl) as [v|]; [destruct (vassigned v && ctx)|]; cbn [fst snd cur glob log next];
+          try rewrite aset_ren; reflexivity.
+      + destruct (afind n c) as [v|]; [destruct (vassigned v && ctx)|]; cbn [fst snd cur glob log next];
+          try rewrite aset_ren; reflexivity.
+    - destruct gf; rewrite afind_ren.
+      + destruct (afind n gl); reflexivity.
+      + destruct (afind n c); reflexivity.
+    - reflexivity.
+  Qed.
+
+  Lemma run_ren ops : forall s,
+    vm_run (ren_vm s) (map (rename_op rho) ops) = (ren_vm (fst (vm_run s ops)), snd (vm_run s ops)).
+  Proof.
+    induction ops as [|o r IH]; intros s; cbn [map vm_run]; [reflexivity|].
+    rewrite step_ren. destruct (vm_step s o) as [s1 a]. cbn [fst snd].
+    rewrite IH. destruct (vm_run s1 r) as [s2 l]. reflexivity.
+  Qed.
+
+  Theorem rename_invariant ops : run_vm (map (rename_op rho) ops) = run_vm ops.
+  Proof.
+    unfold run_vm. change vm0 with (ren_vm vm0) at 1. rewrite run_ren. reflexivity.
+  Qed.
+End Rename.
